@@ -441,7 +441,7 @@ impl Suite for Grid {
 pub struct Scaled {
     pub max_k: u32,
 }
-pub const SCALED_SHAPES: u64 = 12;
+pub const SCALED_SHAPES: u64 = 13;
 
 impl Suite for Scaled {
     fn len(&self) -> u64 {
@@ -536,6 +536,25 @@ impl Suite for Scaled {
                 for _ in 0..k {
                     t.push_str("{$endif}\n");
                 }
+            }
+            12 => {
+                // one control statement whose block holds 100 k statements, two per source line
+                let n = 100 * k;
+                t.push_str("procedure P;\nbegin\n  with Obj do begin");
+                for j in 0..n {
+                    t.push_str(if j % 2 == 0 { "\n   " } else { " " });
+                    t.push_str(&format!("Item{j} := {j};"));
+                }
+                t.push_str(" end;\n  Done;\nend;\n");
+                // marks: every statement of the block on its own line two units deep, the closer one unit deep
+                // plain tokens: procedure P ; begin with Obj do begin  => 8, then 4 per statement
+                let mut marks = vec![serde_json::json!(["R", 500, 0, 0, 4])];
+                for j in 0..n {
+                    marks.push(serde_json::json!(["S", 1000 + j, 500, 1, 8 + 4 * j]));
+                }
+                marks.push(serde_json::json!(["C", 1, 500, 0, 8 + 4 * n]));
+                let meta = serde_json::json!({"prog": {"marks": marks, "nplain": 8 + 4 * n + 6, "regions": [], "alts": [], "decorated": 0, "idents": []}});
+                return Case { text: t, well_formed: true, label: format!("scaled:shape{shape}:k{k}"), wrap_hint: None, meta };
             }
             9 => {
                 // nested records k deep with a field and a literal default
